@@ -379,26 +379,7 @@ func TestC12(t *testing.T) {
 		}
 		Col.MarkExhaustive("all 65536 sample message types; all 1000 three-digit ApplIDs of each of the 13 extension tables; 0..4095 and +-64 around every registered key of the 4 uint32 frame tables")
 	})
-	for ti, tb := range TableList {
-		if !MyShare(ti) && EnvNShards() <= len(TableList) {
-			continue
-		}
-		tb := tb
-		t.Run("generated/"+tb.QName, func(t *testing.T) {
-			holder := holderOf(tb)
-			ts := Types[holder]
-			df := &ts.Fields[ts.FieldIndex(ts.Fields[ts.DynIndex()].Disc)]
-			CheckProp(t, "C12", "c12", "generated/"+tb.QName, func(rt *rapid.T) *CaseC12 {
-				g := &gen{rt: rt, feat: &Features{}, mult: 1}
-				key := g.unregisteredKey("key", tb, df)
-				dir := rapid.SampledFrom([]string{"dec", "enc-absent"}).Draw(rt, "dir")
-				pt := tb.TypeFor(tb.Order[rapid.IntRange(0, len(tb.Order)-1).Draw(rt, "part")])
-				c := &CaseC12{Table: tb.QName, Holder: holder, Key: key, Dir: dir, V: holderWithKeyRT(rt, tb, key, dir == "dec", pt)}
-				c12Record(c, "generated-unregistered")
-				return c
-			}, oracleC12)
-		})
-	}
+	RunProps(t, rpC12Gen(false))
 	c12History(t)
 	t.Run("late-registration", c12LateRegistration)
 }
@@ -566,17 +547,19 @@ func c12LateRegistration(t *testing.T) {
 	Col.MarkExhaustive("late registration of an application-defined type in each of the 18 tables after the table was used")
 }
 
-func c12History(t *testing.T) {
+func c12History(t *testing.T) { RunProps(t, rpC12Hist(false)) }
+
+func rpC12Hist(all bool) (out []RProp) {
 	for ti, tb := range TableList {
-		if !MyShare(ti) && EnvNShards() <= len(TableList) {
+		if !all && !MyShare(ti) && EnvNShards() <= len(TableList) {
 			continue
 		}
 		tb := tb
-		t.Run("receiver-history/"+tb.QName, func(t *testing.T) {
+		{
 			holder := holderOf(tb)
 			ts := Types[holder]
 			df := &ts.Fields[ts.FieldIndex(ts.Fields[ts.DynIndex()].Disc)]
-			CheckProp(t, "C12", "c12hist", "receiver-history/"+tb.QName, func(rt *rapid.T) *CaseC12Hist {
+			out = append(out, MkProp("C12", "c12hist", "receiver-history/"+tb.QName, func(rt *rapid.T) *CaseC12Hist {
 				c := &CaseC12Hist{Table: tb.QName, Holder: holder}
 				g := &gen{rt: rt, feat: &Features{}, mult: 1}
 				n := rapid.IntRange(2, 4).Draw(rt, "steps")
@@ -615,7 +598,36 @@ func c12History(t *testing.T) {
 					Col.Sample("receiver-history", c)
 				}
 				return c
-			}, oracleC12Hist)
-		})
+			}, oracleC12Hist))
+		}
 	}
+	return
+}
+
+func rpC12Gen(all bool) (out []RProp) {
+	for ti, tb := range TableList {
+		if !all && !MyShare(ti) && EnvNShards() <= len(TableList) {
+			continue
+		}
+		tb := tb
+		{
+			holder := holderOf(tb)
+			ts := Types[holder]
+			df := &ts.Fields[ts.FieldIndex(ts.Fields[ts.DynIndex()].Disc)]
+			out = append(out, MkProp("C12", "c12", "generated/"+tb.QName, func(rt *rapid.T) *CaseC12 {
+				g := &gen{rt: rt, feat: &Features{}, mult: 1}
+				key := g.unregisteredKey("key", tb, df)
+				dir := rapid.SampledFrom([]string{"dec", "enc-absent"}).Draw(rt, "dir")
+				pt := tb.TypeFor(tb.Order[rapid.IntRange(0, len(tb.Order)-1).Draw(rt, "part")])
+				c := &CaseC12{Table: tb.QName, Holder: holder, Key: key, Dir: dir, V: holderWithKeyRT(rt, tb, key, dir == "dec", pt)}
+				c12Record(c, "generated-unregistered")
+				return c
+			}, oracleC12))
+		}
+	}
+	return
+}
+
+func init() {
+	RapidProps["C12"] = func() []RProp { return append(rpC12Gen(true), rpC12Hist(true)...) }
 }
